@@ -12,17 +12,20 @@ open QM.Text QM.Parse
 
 /-! ### Layouts of a sequence -/
 
-/-- the steps after the first, each behind its separator -/
-inductive RestP : Bool → List T → List Piece → Prop
-  | nil {b : Bool} : RestP b [] []
+/-- the steps after the first, each behind its separator: `, `, a line break, or — around a "tall"
+    step — a blank line (two line breaks at the sequence's indentation `z`) -/
+inductive RestP (z : Nat) : Bool → List T → List Piece → Prop
+  | nil {b : Bool} : RestP z b [] []
   | consFlat {t : T} {ts : List T} {ps rest : List Piece} :
-      LayP t ps → RestP false ts rest → RestP false (t :: ts) (.atom [','] :: .sp :: (ps ++ rest))
+      LayP t ps → RestP z false ts rest → RestP z false (t :: ts) (.atom [','] :: .sp :: (ps ++ rest))
   | consBrk {t : T} {ts : List T} {ps rest : List Piece} (k : Nat) :
-      LayP t ps → RestP true ts rest → RestP true (t :: ts) (.nl k :: (ps ++ rest))
+      LayP t ps → RestP z true ts rest → RestP z true (t :: ts) (.nl k :: (ps ++ rest))
+  | consTall {b : Bool} {t : T} {ts : List T} {ps rest : List Piece} :
+      LayP t ps → RestP z b ts rest → RestP z b (t :: ts) (.nl z :: .nl z :: (ps ++ rest))
 
-/-- a layout of the sequence `ts` -/
-def SeqP (ts : List T) (all : List Piece) : Prop :=
-  ∃ b t ts' ps rest, ts = t :: ts' ∧ all = ps ++ rest ∧ LayP t ps ∧ RestP b ts' rest
+/-- a layout of the sequence `ts` at indentation `z` -/
+def SeqP (z : Nat) (ts : List T) (all : List Piece) : Prop :=
+  ∃ b t ts' ps rest, ts = t :: ts' ∧ all = ps ++ rest ∧ LayP t ps ∧ RestP z b ts' rest
 
 /-! ### The engine prints a layout -/
 
@@ -35,120 +38,141 @@ theorem pl_seqSep_brk (w col i : Nat) (st : List Frame) :
   simp only [seqSepDoc, pl_concat, mkFrames, List.cons_append, List.nil_append, pl_ifBreak_brk, pl_nil,
     pl_line_brk]
 
-/-- a step that is not a pipeline is not "tall" -/
-theorem isTall_false {t : T} (hnp : noPipe t = true) (body : Doc) : isTall t body = false := by
-  cases t with
-  | chain f more =>
-    have : ((f :: more).dropLast.any isIdent) = false := by
-      simp only [noPipe, List.all_eq_true, Bool.not_eq_true'] at hnp
-      simp only [List.any_eq_false]
-      intro x hx; simp [hnp x hx]
-    simp [isTall, this]
-  | leaf _ => rfl
-  | int _ => rfl
-  | bin _ => rfl
-  | str _ => rfl
-  | tup _ _ => rfl
+theorem pl_hardline (w col i : Nat) (m : Mode) (st : List Frame) :
+    printLoop w col (⟨i, m, .hardline⟩ :: st) [] = .nl i :: printLoop w i st [] :=
+  printLoop_break_nil w col _ st (.inr (.inr rfl))
 
-theorem restPrintAs (ts : List T) (hwf : ∀ t ∈ ts, T.WF t) (hnp : ∀ t ∈ ts, noPipe t = true) :
-    ∀ (w col i : Nat) (m : Mode) (st : List Frame),
-      ∃ ps' ps col', printLoop w col (mkFrames i m (restDocs false ts) ++ st) [] = ps' ++ printLoop w col' st [] ∧
-        renderPieces ps' = renderPieces ps ∧ RestP (isBrk m) ts ps := by
+theorem restPrintAs (ts : List T) (hwf : ∀ t ∈ ts, T.WF t) :
+    ∀ (pt : Bool) (w col i : Nat) (m : Mode) (st : List Frame),
+      ∃ ps' ps col', printLoop w col (mkFrames i m (restDocs pt ts) ++ st) [] = ps' ++ printLoop w col' st [] ∧
+        renderPieces ps' = renderPieces ps ∧ RestP i (isBrk m) ts ps := by
   induction ts with
   | nil =>
-    intro w col i m st
+    intro pt w col i m st
     exact ⟨[], [], col, by simp [restDocs, mkFrames], rfl, .nil⟩
   | cons t ts ih =>
-    intro w col i m st
+    intro pt w col i m st
     have ht : PrintsAs (fieldDoc (chainDocOf t)) (LayP t) :=
       printsAs_fieldDoc (printsAs_chainDocOf (printLoop_term t (hwf t (by simp))))
-    have ih' := ih (fun x hx => hwf x (by simp [hx])) (fun x hx => hnp x (by simp [hx]))
-    simp only [restDocs, isTall_false (hnp t (by simp)), Bool.or_self, Bool.false_eq_true, if_false,
-      mkFrames, List.cons_append, List.nil_append]
-    cases m with
-    | flat =>
-      rw [pl_seqSep_flat]
-      obtain ⟨ps', ps, col1, hp, hr, hl⟩ := ht w (col + 1 + 1) i .flat (mkFrames i .flat (restDocs false ts) ++ st)
-      obtain ⟨rs', rs, col2, hq, hr2, hrest⟩ := ih' w col1 i .flat st
+    have ih' := ih (fun x hx => hwf x (by simp [hx])) (isTall t (chainDocOf t))
+    simp only [restDocs]
+    cases hsep : (pt || isTall t (chainDocOf t)) with
+    | true =>
+      simp only [if_true, mkFrames, List.cons_append, List.nil_append, pl_hardline]
+      obtain ⟨ps', ps, col1, hp, hr, hl⟩ := ht w i i m
+        (mkFrames i m (restDocs (isTall t (chainDocOf t)) ts) ++ st)
+      obtain ⟨rs', rs, col2, hq, hr2, hrest⟩ := ih' w col1 i m st
       rw [hp, hq]
-      exact ⟨.atom [','] :: .sp :: (ps' ++ rs'), .atom [','] :: .sp :: (ps ++ rs), col2, by simp,
-        by simp [renderPieces_append, renderPieces, hr, hr2], .consFlat hl hrest⟩
-    | brk =>
-      rw [pl_seqSep_brk]
-      obtain ⟨ps', ps, col1, hp, hr, hl⟩ := ht w i i .brk (mkFrames i .brk (restDocs false ts) ++ st)
-      obtain ⟨rs', rs, col2, hq, hr2, hrest⟩ := ih' w col1 i .brk st
-      rw [hp, hq]
-      exact ⟨.nl i :: (ps' ++ rs'), .nl i :: (ps ++ rs), col2, by simp,
-        by simp [renderPieces_append, renderPieces, hr, hr2], .consBrk i hl hrest⟩
+      exact ⟨.nl i :: .nl i :: (ps' ++ rs'), .nl i :: .nl i :: (ps ++ rs), col2, by simp,
+        by simp [renderPieces_append, renderPieces, hr, hr2], .consTall hl hrest⟩
+    | false =>
+      simp only [Bool.false_eq_true, if_false, mkFrames, List.cons_append, List.nil_append]
+      cases m with
+      | flat =>
+        rw [pl_seqSep_flat]
+        obtain ⟨ps', ps, col1, hp, hr, hl⟩ := ht w (col + 1 + 1) i .flat
+          (mkFrames i .flat (restDocs (isTall t (chainDocOf t)) ts) ++ st)
+        obtain ⟨rs', rs, col2, hq, hr2, hrest⟩ := ih' w col1 i .flat st
+        rw [hp, hq]
+        exact ⟨.atom [','] :: .sp :: (ps' ++ rs'), .atom [','] :: .sp :: (ps ++ rs), col2, by simp,
+          by simp [renderPieces_append, renderPieces, hr, hr2], .consFlat hl hrest⟩
+      | brk =>
+        rw [pl_seqSep_brk]
+        obtain ⟨ps', ps, col1, hp, hr, hl⟩ := ht w i i .brk
+          (mkFrames i .brk (restDocs (isTall t (chainDocOf t)) ts) ++ st)
+        obtain ⟨rs', rs, col2, hq, hr2, hrest⟩ := ih' w col1 i .brk st
+        rw [hp, hq]
+        exact ⟨.nl i :: (ps' ++ rs'), .nl i :: (ps ++ rs), col2, by simp,
+          by simp [renderPieces_append, renderPieces, hr, hr2], .consBrk i hl hrest⟩
 
-/-- `sequence_doc_with` prints a layout of the sequence -/
-theorem printsAs_sequence {ts : List T} (hwf : WFProg ts) : PrintsAs (sequenceDoc ts) (SeqP ts) := by
-  obtain ⟨hne, hall, hpipe⟩ := hwf
+/-- `sequence_doc_with` at indentation `i` prints a layout of the sequence -/
+theorem printsAs_sequence {ts : List T} (hwf : WFProg ts) :
+    ∀ (w col i : Nat) (m : Mode) (st : List Frame),
+      ∃ ps' ps col', printLoop w col (⟨i, m, sequenceDoc ts⟩ :: st) [] = ps' ++ printLoop w col' st [] ∧
+        renderPieces ps' = renderPieces ps ∧ SeqP i ts ps := by
+  obtain ⟨hne, hall⟩ := hwf
   cases ts with
   | nil => exact absurd rfl hne
   | cons t ts =>
     intro w col i m st
     have hfd : PrintsAs (fieldDoc (chainDocOf t)) (LayP t) :=
       printsAs_fieldDoc (printsAs_chainDocOf (printLoop_term t (hall t (by simp))))
-    -- the `rest` of the sequence: empty (one step), or steps that are not pipelines
-    have hrest : ∃ b, restDocs (isTall t (chainDocOf t)) ts = restDocs b ts ∧
-        (ts = [] ∨ (b = false ∧ ∀ x ∈ ts, noPipe x = true)) := by
-      rcases hpipe with h1 | hnp
-      · have : ts = [] := by simpa using h1
-        exact ⟨_, rfl, .inl this⟩
-      · exact ⟨false, by rw [isTall_false (hnp t (by simp))], .inr ⟨rfl, fun x hx => hnp x (by simp [hx])⟩⟩
-    obtain ⟨b, hb, hcase⟩ := hrest
-    simp only [sequenceDoc, Doc.mkGroup, hb]
+    simp only [sequenceDoc, Doc.mkGroup]
     obtain ⟨m', hg⟩ := pl_group w col i m st
-      (.concat [fieldDoc (chainDocOf t), .nest 0 (.concat (restDocs b ts))])
-      (forcesBreak (.concat [fieldDoc (chainDocOf t), .nest 0 (.concat (restDocs b ts))]))
+      (.concat [fieldDoc (chainDocOf t), .nest 0 (.concat (restDocs (isTall t (chainDocOf t)) ts))])
+      (forcesBreak (.concat [fieldDoc (chainDocOf t),
+        .nest 0 (.concat (restDocs (isTall t (chainDocOf t)) ts))]))
     rw [hg, pl_concat]
     simp only [mkFrames, List.cons_append, List.nil_append]
-    obtain ⟨ps', ps, col1, hp, hr, hl⟩ := hfd w col i m' (⟨i, m', .nest 0 (.concat (restDocs b ts))⟩ :: st)
+    obtain ⟨ps', ps, col1, hp, hr, hl⟩ := hfd w col i m'
+      (⟨i, m', .nest 0 (.concat (restDocs (isTall t (chainDocOf t)) ts))⟩ :: st)
     rw [hp, pl_nest, pl_concat, Nat.add_zero]
-    have hrs : ∃ rs' rs col2, printLoop w col1 (mkFrames i m' (restDocs b ts) ++ st) [] =
-        rs' ++ printLoop w col2 st [] ∧ renderPieces rs' = renderPieces rs ∧ RestP (isBrk m') ts rs := by
-      rcases hcase with rfl | ⟨rfl, hnp⟩
-      · exact ⟨[], [], col1, by simp [restDocs, mkFrames], rfl, .nil⟩
-      · exact restPrintAs ts (fun x hx => hall x (by simp [hx])) hnp w col1 i m' st
-    obtain ⟨rs', rs, col2, hq, hr2, hrest⟩ := hrs
+    obtain ⟨rs', rs, col2, hq, hr2, hrest⟩ :=
+      restPrintAs ts (fun x hx => hall x (by simp [hx])) (isTall t (chainDocOf t)) w col1 i m' st
     rw [hq]
     exact ⟨ps' ++ rs', ps ++ rs, col2, by simp, by simp [renderPieces_append, hr, hr2],
       _, t, ts, ps, rs, rfl, rfl, hl, hrest⟩
 
-/-! ### Layouts of a sequence are tidy and NUL-free -/
+/-! ### A layout of a sequence (at indentation 0) is blocks around single blank lines -/
 
-theorem restP_tidy {b : Bool} {ts : List T} {ps : List Piece} (h : RestP b ts ps) :
-    ∀ (r : List Piece), tidyPs true r = true → tidyPs true (ps ++ r) = true := by
+/-- a piece list that is tidy behind whatever ends in an atom or a gap, and before anything tidy -/
+def TidyBlockStart (p : List Piece) : Prop :=
+  ∀ (b : Bool) (r : List Piece), tidyPs true r = true → tidyPs b (p ++ r) = true
+
+theorem restP_blocks {b : Bool} {ts : List T} {ps : List Piece} (h : RestP 0 b ts ps) :
+    ∀ (p0 : List Piece), TidyBlockStart p0 → nulFree p0 = true →
+      ∃ bs, bs ≠ [] ∧ p0 ++ ps = joinBlocks bs ∧ ∀ x ∈ bs, tidyPs false x = true ∧ nulFree x = true := by
   induction h with
-  | nil => intro r hr; simpa using hr
-  | consFlat hl _ ih =>
-    intro r hr
+  | nil =>
+    intro p0 h0 hn
+    refine ⟨[p0], by simp, by simp [joinBlocks], ?_⟩
+    intro x hx
+    simp only [List.mem_singleton] at hx
+    subst hx
+    have := h0 false [] rfl
+    rw [List.append_nil] at this
+    exact ⟨this, hn⟩
+  | @consFlat t ts q rest hl _ ih =>
+    intro p0 h0 hn
     have h3 : goodAtom [','] = true := by decide
-    have := layP_tidy hl false (_ ++ r) (ih r hr)
-    simpa [tidyPs, okAtom, h3] using this
-  | consBrk k hl _ ih =>
-    intro r hr
-    have := layP_tidy hl false (_ ++ r) (ih r hr)
-    simpa [tidyPs, okAtom] using this
+    obtain ⟨bs, hne, heq, hall⟩ := ih (p0 ++ .atom [','] :: .sp :: q)
+      (by
+        intro b r hr
+        have := h0 b (.atom [','] :: .sp :: (q ++ r)) (by simpa [tidyPs, okAtom, h3] using layP_tidy hl false r hr)
+        simpa using this)
+      (by simp only [nulFree_append, nulFree, hn, nulAtom_comma, layP_nulFree hl, Bool.and_self])
+    exact ⟨bs, hne, by rw [← heq]; simp, hall⟩
+  | @consBrk t ts q rest k hl _ ih =>
+    intro p0 h0 hn
+    obtain ⟨bs, hne, heq, hall⟩ := ih (p0 ++ .nl k :: q)
+      (by
+        intro b r hr
+        have := h0 b (.nl k :: (q ++ r)) (by simpa [tidyPs] using layP_tidy hl false r hr)
+        simpa using this)
+      (by simp only [nulFree_append, nulFree, hn, layP_nulFree hl, Bool.and_self])
+    exact ⟨bs, hne, by rw [← heq]; simp, hall⟩
+  | @consTall b' t ts q rest hl _ ih =>
+    intro p0 h0 hn
+    obtain ⟨bs, hne, heq, hall⟩ := ih q (fun b r hr => layP_tidy hl b r hr) (layP_nulFree hl)
+    refine ⟨p0 :: bs, by simp, ?_, ?_⟩
+    · cases bs with
+      | nil => exact absurd rfl hne
+      | cons b1 bs => simp [joinBlocks, heq]
+    · intro x hx
+      simp only [List.mem_cons] at hx
+      rcases hx with rfl | hx
+      · have := h0 false [] rfl
+        rw [List.append_nil] at this
+        exact ⟨this, hn⟩
+      · exact hall x hx
 
-theorem seqP_tidy {ts : List T} {ps : List Piece} (h : SeqP ts ps) (b : Bool) : tidyPs b ps = true := by
+/-- a layout of a sequence at the top level -/
+theorem seqP_blocks {ts : List T} {ps : List Piece} (h : SeqP 0 ts ps) :
+    ∃ bs, bs ≠ [] ∧ ps = joinBlocks bs ∧ ∀ x ∈ bs, tidyPs false x = true ∧ nulFree x = true := by
   obtain ⟨_, t, ts', p1, rest, _, rfl, hl, hrest⟩ := h
-  have := restP_tidy hrest [] rfl
-  rw [List.append_nil] at this
-  exact layP_tidy hl b rest this
+  exact restP_blocks hrest p1 (fun b r hr => layP_tidy hl b r hr) (layP_nulFree hl)
 
-theorem restP_nulFree {b : Bool} {ts : List T} {ps : List Piece} (h : RestP b ts ps) : nulFree ps = true := by
-  induction h with
-  | nil => rfl
-  | consFlat hl _ ih => simp only [nulFree, nulFree_append, layP_nulFree hl, ih, nulAtom_comma, Bool.and_self]
-  | consBrk k hl _ ih => simp only [nulFree, nulFree_append, layP_nulFree hl, ih, Bool.and_self]
-
-theorem seqP_nulFree {ts : List T} {ps : List Piece} (h : SeqP ts ps) : nulFree ps = true := by
-  obtain ⟨_, t, ts', p1, rest, _, rfl, hl, hrest⟩ := h
-  simp [nulFree_append, layP_nulFree hl, restP_nulFree hrest]
-
-theorem seqP_head {ts : List T} {ps : List Piece} (h : SeqP ts ps) : HeadOk (renderPieces ps) := by
+theorem seqP_head {z : Nat} {ts : List T} {ps : List Piece} (h : SeqP z ts ps) : HeadOk (renderPieces ps) := by
   obtain ⟨_, t, ts', p1, rest, _, rfl, hl, _⟩ := h
   rw [renderPieces_append]
   exact (layP_head hl).append _
@@ -316,18 +340,68 @@ theorem stop_nl_headOk (k : Nat) {s : Str} (h : HeadOk s) : Stop ('\n' :: (List.
   rw [dropWhile_nl_spaces k h]
   exact headOk_not_paren h
 
-theorem restP_stop {b : Bool} {ts : List T} {ps : List Piece} (h : RestP b ts ps) {rest : Str}
+/-! white space between a line break and the next step: the indentation, or a blank line -/
+
+theorem dropWhile_ws {w s : Str} (hw : w.all isMultispace = true) (h : HeadOk s) :
+    (w ++ s).dropWhile isMultispace = s := by
+  induction w with
+  | nil => simpa using headOk_not_ms h
+  | cons c w ih =>
+    simp only [List.all_cons, Bool.and_eq_true] at hw
+    rw [List.cons_append, List.dropWhile_cons, hw.1]
+    simpa using ih hw.2
+
+theorem skipSepTail_ws {w : Str} (hw : w.all isMultispace = true) (R : Str) :
+    skipSepTail false (w ++ R) = skipSepTail false R := by
+  induction w with
+  | nil => rfl
+  | cons c w ih =>
+    simp only [List.all_cons, Bool.and_eq_true] at hw
+    rw [List.cons_append, skipSepTail_skip (by simp [hw.1]), ih hw.2]
+
+/-- a line break, any white space, the next step -/
+theorem seqSep_nlw {w s : Str} (hw : w.all isMultispace = true) (h : HeadOk s) :
+    seqSep ('\n' :: (w ++ s)) = .ok () s := by
+  unfold seqSep
+  rw [skipHspaceComments_stop (by decide) (by decide)]
+  simp only [alt, pchar, lineEnding, show ¬ ('\n' = ',') by decide, if_false]
+  rw [skipSepTail_ws hw, skipSepTail_headOk h]
+
+theorem stopC_nlw {w s : Str} (hw : w.all isMultispace = true) (h : HeadOk s) : StopC ('\n' :: (w ++ s)) := by
+  have hdrop : ('\n' :: (w ++ s)).dropWhile isMultispace = s := by
+    rw [List.dropWhile_cons, show isMultispace '\n' = true by decide]
+    simpa using dropWhile_ws hw h
+  refine ⟨⟨by simp [IdStop]; decide, by rw [headAll_cons]; decide, ?_⟩, ?_⟩
+  · rw [hdrop]; exact headOk_not_paren h
+  · have hws : ws1 ('\n' :: (w ++ s)) = .ok () s := by
+      simp [ws1, show isMultispace '\n' = true by decide, dropWhile_ws hw h]
+    refine Fails.alt (Fails.seq_ok hws (Fails.seq (ptag_pipe_fails (.inl h)))) ?_
+    exact ⟨'\n' :: (w ++ s), .space, by simp [hspace1, Parse.isHspace]⟩
+
+theorem all_ms_replicate (k : Nat) : (List.replicate k ' ').all isMultispace = true := by
+  simp only [List.all_eq_true]
+  intro c hc; rw [List.eq_of_mem_replicate hc]; decide
+
+theorem all_ms_blank (z : Nat) :
+    (List.replicate z ' ' ++ '\n' :: List.replicate z ' ').all isMultispace = true := by
+  rw [List.all_append, all_ms_replicate, List.all_cons, all_ms_replicate]
+  decide
+
+theorem restP_stop {z : Nat} {b : Bool} {ts : List T} {ps : List Piece} (h : RestP z b ts ps) {rest : Str}
     (hs : StopC rest) : StopC (renderPieces ps ++ rest) := by
   cases h with
   | nil => simpa [renderPieces] using hs
   | consFlat hl _ => simpa [renderPieces, Piece.render] using stopC_comma _
-  | consBrk k hl hrest0 =>
-    rename_i t ts ps0 rest0
+  | @consBrk t ts ps0 rest0 k hl _ =>
     have hh := ((layP_head hl).append (renderPieces rest0)).append rest
-    have := And.intro (stop_nl_headOk k hh) (chainSep_fails_nl k (.inl hh))
-    simpa [StopC, renderPieces, Piece.render, renderPieces_append] using this
+    have := stopC_nlw (all_ms_replicate k) hh
+    simpa [renderPieces, Piece.render, renderPieces_append] using this
+  | @consTall b' t ts ps0 rest0 hl _ =>
+    have hh := ((layP_head hl).append (renderPieces rest0)).append rest
+    have := stopC_nlw (all_ms_blank z) hh
+    simpa [renderPieces, Piece.render, renderPieces_append] using this
 
-theorem rest_lay {b : Bool} {ts : List T} {ps : List Piece} (h : RestP b ts ps) :
+theorem rest_lay {z : Nat} {b : Bool} {ts : List T} {ps : List Piece} (h : RestP z b ts ps) :
     ∀ (n : Nat) (rest : Str), (renderPieces ps).length < n → StopC rest →
       sepTail seqSep (chainP (termP n)) rest = .ok [] rest →
       sepTail seqSep (chainP (termP n)) (renderPieces ps ++ rest) = .ok ts rest := by
@@ -357,10 +431,22 @@ theorem rest_lay {b : Bool} {ts : List T} {ps : List Piece} (h : RestP b ts ps) 
     exact sepTail_cons sound_seqSep (chainP_sound (termP_sound n))
       (seqSep_nl k ((layP_head hl).append _)) (by simp; omega)
       (chainP_lay hl n _ hl1.1 (restP_stop hrest hs)) (ih n rest hl1.2 hs hend)
+  | @consTall b' t ts ps0 rest0 hl hrest ih =>
+    intro n rest hlen hs hend
+    have hsplit : renderPieces (.nl z :: .nl z :: (ps0 ++ rest0)) ++ rest =
+        '\n' :: ((List.replicate z ' ' ++ '\n' :: List.replicate z ' ') ++
+          (renderPieces ps0 ++ (renderPieces rest0 ++ rest))) := by
+      simp [renderPieces, Piece.render, renderPieces_append]
+    have hl1 : (renderPieces ps0).length < n ∧ (renderPieces rest0).length < n := by
+      simp [renderPieces, Piece.render, renderPieces_append] at hlen; omega
+    rw [hsplit]
+    exact sepTail_cons sound_seqSep (chainP_sound (termP_sound n))
+      (seqSep_nlw (all_ms_blank z) ((layP_head hl).append _)) (by simp; omega)
+      (chainP_lay hl n _ hl1.1 (restP_stop hrest hs)) (ih n rest hl1.2 hs hend)
 
 /-- `separated_list1(seq_sep, chain)` reads a layout of the sequence, up to a `rest` at which the
     list ends (`hend`) -/
-theorem seqP_lay {ts : List T} {ps : List Piece} (h : SeqP ts ps) (n : Nat) (rest : Str)
+theorem seqP_lay {z : Nat} {ts : List T} {ps : List Piece} (h : SeqP z ts ps) (n : Nat) (rest : Str)
     (hlen : (renderPieces ps).length < n) (hs : StopC rest)
     (hend : sepTail seqSep (chainP (termP n)) rest = .ok [] rest) :
     sepList1 seqSep (chainP (termP n)) (renderPieces ps ++ rest) = .ok ts rest := by
